@@ -182,3 +182,216 @@ def check_lifecycle_accepts_whatever_the_cpu_holds(ctx, rule):
                           "running threads oversubscribe a CPU" %
                           (evs["name"], stname, len(refused), len(outs), "virtual" if virt else "physical", orun, oact))
     ctx.need(n >= 48, "only %d (event, state, CPU content) cells evaluated" % n)
+
+
+# ------------------------------------------------------------------------------------------------ task views
+
+def check_task_transition_dispatch(ctx, rule):
+    """The task view follows the body that runs after the event.  Both task models reduce an event to a transition
+    letter (x, e, p, r, and the nested forms X = execute over a running body, E = end with a body still running) and
+    dispatch it to three channel functions.  expand_transition_value is evaluated on the 4 events x 4 (was running,
+    runs now) combinations, and update_task_channels on the six letters: x, r publish the body that runs now; e, p
+    clear the view; X and E switch from the previous to the current body."""
+    import json
+    import os
+    prog = ctx.prog
+    eff = effects.Effects(prog)
+    sp = json.load(open(os.path.join(os.path.dirname(os.path.dirname(os.path.abspath(__file__))), "spec", "C07.json")))
+
+    def F(rec, field):
+        return ((rec, field),)
+    n = 0
+    for model in ("nosv", "nanos6"):
+        evfile = "src/emu/%s/event.c" % model
+        fn = sp[model]["chan_functions"]
+        etv = prog.fn("expand_transition_value", evfile)
+        utc = prog.fn("update_task_channels", evfile)
+        ex = absint.Explorer(prog, effects=eff)
+        for v in "xepr":
+            for was in (0, 1):
+                for now in (0, 1):
+                    want = "X" if (v == "x" and was) else "E" if (v == "e" and now) else v
+                    outs = ex.run(etv, [PTR("EMU"), INT(was), INT(now), PTR("TR")],
+                                  {("EMU", F("emu", "ev")): PTR("EV"), ("EV", F("emu_ev", "v")): INT(ord(v))})
+                    acc = [o for o in outs if o.kind == "ret" and o.ret == INT(0)]
+                    got = sorted({str(o.store.get(("TR", ()))) for o in acc})
+                    n += 1
+                    ctx.check(len(acc) == len(outs) and bool(acc) and all(o.store.get(("TR", ())) == INT(ord(want)) for o in acc),
+                              rule, "%s:expand_transition_value:%s:was-running-%d:runs-now-%d" % (model, v, was, now),
+                              etv.loc(), "event '%s' with a body running before: %d, after: %d must become transition '%s'; "
+                              "got %s on %d of %d paths" % (v, was, now, want, got, len(acc), len(outs)))
+        for tr, role in (("x", "running"), ("r", "running"), ("e", "stopped"), ("p", "stopped"), ("X", "switch"), ("E", "switch")):
+            called = []
+
+            def mk(r):
+                def s(ex_, st, a, f_, e, r=r):
+                    called.append((r, tuple(a[1:])))
+                    return [(INT(0), {})]
+                return s
+            ex2 = absint.Explorer(prog, effects=eff, summaries={fn[r]: mk(r) for r in fn})
+            outs = ex2.run(utc, [PTR("EMU"), INT(ord(tr)), PTR("PREV"), PTR("NEXT")], {})
+            acc = [o for o in outs if o.kind == "ret" and o.ret == INT(0)]
+            want_args = {"running": (PTR("NEXT"),), "stopped": (), "switch": (PTR("PREV"), PTR("NEXT"))}[role]
+            n += 1
+            ctx.check(bool(acc) and len(acc) == len(outs) and called == [(role, want_args)], rule,
+                      "%s:update_task_channels:%s" % (model, tr), utc.loc(),
+                      "transition '%s' must call %s%s exactly once and succeed; it calls %s (%d of %d paths succeed): the "
+                      "thread and CPU rows do not show the body that runs after the event" %
+                      (tr, fn[role], tuple(str(a) for a in want_args), [(fn[c[0]], tuple(str(a) for a in c[1])) for c in called],
+                       len(acc), len(outs)))
+    ctx.need(n == 44, "%d transition instances evaluated, 44 expected" % n)
+
+
+def check_init_after_free_refused(ctx, rule):
+    """A thread that was freed has a finished stream (marker written, files possibly relocated): a second
+    ovni_thread_init in that thread must be refused before anything is reset, opened or allocated, otherwise the
+    second life rewrites the finished stream from offset 0 (or writes to a temporary directory that nobody relocates
+    if the process is killed) under metadata that already says finished."""
+    from rules.round3 import _rt_store, RT, F
+    prog = ctx.prog
+    eff = effects.Effects(prog)
+    ti = prog.fn("ovni_thread_init", OV)
+    io = []
+
+    def mk(name, ret):
+        def s(ex_, st, a, f, e):
+            io.append(name)
+            return [(ret, {})]
+        return s
+    ex = absint.Explorer(prog, effects=eff, loop_bound=2, max_depth=5, inline=lambda n, d: d.file == OV,
+                         summaries={"open": mk("open", INT(9)), "malloc": mk("malloc", PTR("NEWBUF", (0,))),
+                                    "mkdir": mk("mkdir", INT(0)), "mkpath": mk("mkpath", INT(0)),
+                                    "write": mk("write", TOP), "json_value_init_object": mk("json", PTR("NEWMETA"))})
+    store = _rt_store(prog, 0)
+    store[(RT, F("ovni_rthread", "finished"))] = INT(1)
+    outs = ex.run(ti, [INT(5)], store)
+    ctx.need(outs, "ovni_thread_init cannot be evaluated on a finished thread")
+    alive = [o for o in outs if o.kind != "die"]
+    ctx.check(not alive and not io, rule, "ovni_thread_init:init-after-free-refused", ti.loc(),
+              "ovni_thread_init on a thread whose stream is finished returns on %d of %d paths%s: the finished stream is "
+              "reopened and rewritten while its metadata says it is complete" %
+              (len(alive), len(outs), (" after calling %s" % sorted(set(io))) if io else ""))
+
+
+# ------------------------------------------------------------------------------------------------ error flow
+
+def check_failure_reaches_main(ctx, rule, fname, file, tag, consequence, min_sites):
+    """The failure of `fname` is followed call site by call site (function tables included) up to the exit status of
+    ovniemu's main: at no site may it be dropped, overwritten or turned into success."""
+    from ovsa import errflow
+    prog = ctx.prog
+    main = prog.fn("main", "src/emu/ovniemu.c")
+    fn = prog.fn(fname, file)
+    ef = errflow.ErrFlow(prog, main, registry=errflow.Registry(prog))
+    drops = ef.propagates(fn, pointer=fn.ret.rstrip().endswith("*"))
+    n_ = 0
+    for (g, c, where, ok, detail) in ef.checked_sites:
+        n_ += 1
+        ctx.check(ok, rule, "%s:%s->%s" % (tag, g, c), where,
+                  "the failure of %s is dropped in %s: %s; %s" % (g, c, detail, consequence))
+    for (c, n, detail) in drops:
+        if n is None:
+            ctx.fail(rule, "%s:%s:unreached" % (tag, c.name), c.loc(), detail)
+    ctx.need(n_ >= min_sites, "only %d call sites between %s and main" % (n_, fname))
+
+
+# ------------------------------------------------------------------------------------------------ marks
+
+def check_mark_connect_covers_all(ctx, rule):
+    """A mark type needs to be defined by one thread only, and any thread may then use it: the channels the event
+    handlers write exist for every thread (R17.8), so the connection to the Paraver rows must cover every thread and
+    every CPU too, whatever their own metadata says.  connect_thread / connect_cpu of ovni/mark.c are evaluated on
+    lists of three, with the metadata look-ups answering "no mark object" for any subset of them."""
+    import itertools
+    prog = ctx.prog
+    eff = effects.Effects(prog)
+    MC = "src/emu/ovni/mark.c"
+
+    def F(rec, field):
+        return ((rec, field),)
+    n = 0
+    for fname, callee, head, link, rec in (("connect_thread", "connect_thread_prv", "threads", "gnext", "thread"),
+                                           ("connect_cpu", "connect_cpu_prv", "cpus", "next", "cpu")):
+        fn = prog.fn(fname, MC)
+        for has in itertools.product((0, 1), repeat=3):
+            done = []
+
+            def s_conn(ex_, st, a, f, e):
+                done.append(a[1][1] if a[1][0] == "ptr" else "?")
+                return [(INT(0), {})]
+
+            def s_meta(ex_, st, a, f, e, has=has):
+                # json look-up on an object reached from element Xk: present iff has[k]
+                o = a[0]
+                k = int(o[1][-1]) if o[0] == "ptr" and isinstance(o[1], str) and o[1][-1:].isdigit() else 0
+                return [((PTR("MARKOBJ%d" % k) if has[k] else NULL), {})]
+            sums = {callee: s_conn, "recorder_find_pvt": lambda ex_, st, a, f, e: [(PTR("PVT"), {})],
+                    "pvt_get_prv": lambda ex_, st, a, f, e: [(PTR("PRV"), {})],
+                    "pvt_get_pcf": lambda ex_, st, a, f, e: [(PTR("PCF"), {})],
+                    "init_pcf": lambda ex_, st, a, f, e: [(INT(0), {})],
+                    "extend_get": lambda ex_, st, a, f, e: [(PTR("OEMU"), {})]}
+            for g in ("json_object_dotget_object", "json_object_get_object", "json_object_dotget_value",
+                      "json_object_get_value", "json_object_dothas_value", "json_object_has_value"):
+                sums[g] = s_meta
+            ex = absint.Explorer(prog, effects=eff, loop_bound=5, opaque={callee, "init_pcf"}, summaries=sums)
+            store = {("EMU", F("emu", "system") + F("system", head)): PTR("X0"),
+                     ("EMU", F("emu", "system") + F("system", "n" + head)): INT(3)}
+            for i in range(3):
+                store[("X%d" % i, F(rec, link))] = PTR("X%d" % (i + 1)) if i < 2 else NULL
+                store[("X%d" % i, F(rec, "meta"))] = PTR("META%d" % i)
+            outs = [o for o in ex.run(fn, [PTR("EMU")], store) if o.kind == "ret"]
+            n += 1
+            good = bool(outs) and all(o.ret == INT(0) for o in outs) and sorted(set(done)) == ["X0", "X1", "X2"]
+            ctx.check(good, rule, "%s:own-mark-metadata=%s" % (fname, "".join(map(str, has))), fn.loc(),
+                      "with three %ss of which %s carry mark definitions of their own, %s connects %s to the Paraver rows "
+                      "(expected all three): a %s that uses a type defined elsewhere loses its marks from the timeline" %
+                      (rec, [i for i in range(3) if has[i]], fname, sorted(set(done)), rec))
+    ctx.need(n == 16, "%d connect cases" % n)
+
+
+def check_scan_thread_keeps_failure(ctx, rule):
+    """scan_thread walks the mark types of one thread: it must fail when parse_mark refuses any of them, the first
+    as well as the last (three types, every non-empty subset refused)."""
+    import itertools
+    prog = ctx.prog
+    eff = effects.Effects(prog)
+    st_ = prog.fn("scan_thread", "src/emu/ovni/mark.c")
+
+    def F(rec, field):
+        return ((rec, field),)
+    n = 0
+    for refused in itertools.product((0, 1), repeat=3):
+        seen = []
+
+        def s_parse(ex_, st, a, f, e, refused=refused):
+            k = a[2][1] if a[2][0] == "ptr" else "?"
+            seen.append(k)
+            i = int(k[-1]) if k[-1:].isdigit() else 0
+            return [(INT(-1 if refused[i] else 0), {})]
+
+        def s_at(prefix):
+            def s(ex_, st, a, f, e):
+                if len(a) > 1 and a[1][0] == "int":
+                    return [(("str", "%d" % (a[1][1] + 1)) if prefix == "name" else PTR("MARKVAL%d" % a[1][1]), {})]
+                return [(TOP, {})]
+            return s
+        sums = {"parse_mark": s_parse, "json_object_dotget_object": lambda ex_, st, a, f, e: [(PTR("MARKS"), {})],
+                "json_object_get_object": lambda ex_, st, a, f, e: [(PTR("MARKS"), {})],
+                "json_object_get_count": lambda ex_, st, a, f, e: [(INT(3), {})],
+                "json_object_get_name": s_at("name"), "json_object_get_value_at": s_at("value")}
+        ex = absint.Explorer(prog, effects=eff, loop_bound=6, opaque={"parse_mark"}, summaries=sums)
+        outs = [o for o in ex.run(st_, [PTR("MEMU"), PTR("TH")], {("TH", F("thread", "meta")): PTR("META")})
+                if o.kind == "ret"]
+        ctx.need(outs and all(o.ret is not None and o.ret[0] == "int" for o in outs),
+                 "scan_thread cannot be evaluated on a thread with three mark types")
+        n += 1
+        if any(refused):
+            ok_ = all(o.ret[1] != 0 for o in outs)
+            what = "returns success on %d of %d paths" % (sum(1 for o in outs if o.ret[1] == 0), len(outs))
+        else:
+            ok_ = all(o.ret[1] == 0 for o in outs) and sorted(set(seen)) == ["MARKVAL0", "MARKVAL1", "MARKVAL2"]
+            what = "fails or parses only %s" % sorted(set(seen))
+        ctx.check(ok_, rule, "scan_thread:refused-types=%s" % "".join(map(str, refused)), st_.loc(),
+                  "with parse_mark refusing types %s of 3, scan_thread %s: a definition that conflicts with another "
+                  "thread's is accepted" % ([i for i in range(3) if refused[i]], what))
+    ctx.need(n == 8, "%d scan_thread cases" % n)
